@@ -11,7 +11,7 @@ makes the derived fetch again as soon as that fetch has returned) and is not re-
 
 | here                  | Rust                                                                                   |
 |-----------------------|----------------------------------------------------------------------------------------|
-| `Res`                 | `AsyncDerived::new(move || { let v = body(signals); async move { gate.await; v } })`: `pending` = a fetch is in flight (`loading`), `cap` = the value that fetch captured, `again` = a tracked signal was written since it started, `tracked` = the signals its fetcher read, `last` = the value of the last fetch that was not superseded on return (what every `Suspend` over the resource last resolved to) |
+| `Res`                 | `AsyncDerived::new(move || { let v = body(signals); async move { gate.await; v } })`: `pending` = a fetch is in flight (`loading`), `cap` = the value that fetch captured, `again` = a tracked signal was written since it started, `tracked` = the signals its fetchers have read so far (sources are never cleared), `last` = the value of the last fetch that was not superseded on return (what every `Suspend` over the resource last resolved to) |
 | `SSt.set`             | `RwSignal::set` then idle: a resource that tracks the signal starts a fetch, or — with one in flight — is marked to fetch again |
 | `SSt.resolve`         | the harness completes the fetch in flight: its value is published, unless the resource is marked to fetch again: then nobody gets to see the value (the derived starts the next fetch in the same poll, every `Suspend` that re-awaits finds it loading) |
 | `SV.sus`              | leptos `Suspense` (leptos/src/suspense_component.rs): `SuspenseBoundary<false>` = `RenderEffect` over `none_pending` switching an `EitherKeepAlive { children, fallback }` (tachys/src/view/either.rs); pending = some `Suspend` built below it (and not below a boundary of its own) awaits a resource that is loading (`SuspenseContext::task_id`) |
@@ -77,9 +77,11 @@ def readsDyn (ρ : Nat → Int) : Expr → List Nat
   | .seq a b => readsDyn ρ a ++ readsDyn ρ b
   | .wr _ a => readsDyn ρ a
 
-/-- a fetch starts now: the fetcher reads the signals -/
+/-- a fetch starts now: the fetcher reads the signals; the derived's task does not clear its sources between
+fetches (`spawn_derived!`, arc_async_derived.rs), so a signal read by an EARLIER fetch stays tracked -/
 def Res.start (r : Res) (ρ : Nat → Int) : Res :=
-  { r with cap := Reactive.evalPure ρ r.body, pending := true, again := false, tracked := readsDyn ρ r.body }
+  { r with cap := Reactive.evalPure ρ r.body, pending := true, again := false,
+           tracked := r.tracked ++ (readsDyn ρ r.body).filter (!r.tracked.contains ·) }
 
 def SSt.addRes (st : SSt) (body : Expr) : SSt :=
   { st with res := st.res ++ [({ body := body } : Res).start st.env] }
